@@ -32,12 +32,14 @@ import (
 	"bufio"
 	"bytes"
 	"context"
+	crand "crypto/rand"
 	"encoding/binary"
 	"errors"
 	"fmt"
 	"io"
 	"net"
 	"os"
+	"os/exec"
 	"strings"
 	"sync"
 	"time"
@@ -75,6 +77,7 @@ type hsCase struct {
 	LongChain bool
 	Mode      string // "", "0rtt", "0rtt-reject"
 	TwoVers   bool   // client offers two versions (both spoken by the server)
+	EchoDCID  bool   // the server uses the client's original DCID as its own source connection ID (legal)
 	Faults    []fault
 	Inj       *hsInj
 	Seed      uint64
@@ -89,7 +92,7 @@ func (c hsCase) String() string {
 	if c.Inj != nil {
 		inj = fmt.Sprintf("%s@%s#%d", injNames[c.Inj.Kind], []string{"c>s", "s>c"}[c.Inj.Dir], c.Inj.Idx)
 	}
-	return fmt.Sprintf("client=%s retry=%v vn=%v longchain=%v twovers=%v mode=%q faults=[%s] inject=%s seed=%d", c.Client, c.Retry, c.VN, c.LongChain, c.TwoVers, c.Mode, strings.Join(fs, " "), inj, c.Seed)
+	return fmt.Sprintf("client=%s retry=%v vn=%v longchain=%v twovers=%v echo=%v mode=%q faults=[%s] inject=%s seed=%d", c.Client, c.Retry, c.VN, c.LongChain, c.TwoVers, c.EchoDCID, c.Mode, strings.Join(fs, " "), inj, c.Seed)
 }
 
 // ---- minimal wire reader of the on-path attacker ----
@@ -130,7 +133,38 @@ func hsParse(b []byte) (h hsHdr, ok bool) {
 	return h, true
 }
 
+// hsEchoGen: a server ConnectionIDGenerator that answers the next request with the client's original
+// destination connection ID (8 bytes), once per connection attempt; random otherwise.
+type hsEchoGen struct {
+	mu   sync.Mutex
+	next []byte
+	used int
+}
+
+func (g *hsEchoGen) ConnectionIDLen() int { return 8 }
+func (g *hsEchoGen) GenerateConnectionID() (quic.ConnectionID, error) {
+	g.mu.Lock()
+	defer g.mu.Unlock()
+	if len(g.next) == 8 {
+		id := quic.ConnectionIDFromBytes(g.next)
+		g.next = nil
+		g.used++
+		return id, nil
+	}
+	b := make([]byte, 8)
+	if _, err := crand.Read(b); err != nil {
+		return quic.ConnectionID{}, err
+	}
+	return quic.ConnectionIDFromBytes(b), nil
+}
+func (g *hsEchoGen) offer(dcid []byte) {
+	g.mu.Lock()
+	g.next = append([]byte{}, dcid...)
+	g.mu.Unlock()
+}
+
 type hsAttacker struct {
+	echo *hsEchoGen
 	mu        sync.Mutex
 	c         hsCase
 	cliAddr   net.Addr
@@ -170,6 +204,9 @@ func (a *hsAttacker) observe(dir, idx int, data []byte) {
 		if !a.seenAttempt[key] {
 			// a new connection attempt (first dial, or the re-creation after a version negotiation)
 			a.seenAttempt[key] = true
+			if a.echo != nil {
+				a.echo.offer(h.dcid)
+			}
 			a.cliSCID = h.scid
 			a.firstDCID = h.dcid
 			a.firstDCIDs = append(a.firstDCIDs, h.dcid)
@@ -337,6 +374,13 @@ func runOneHS(c hsCase) (fails []monFail, info string) {
 		if c.Retry {
 			o.SrvTr = func(t *quic.Transport) { t.VerifySourceAddress = func(net.Addr) bool { return true } }
 		}
+		var echo *hsEchoGen
+		if c.EchoDCID {
+			echo = &hsEchoGen{}
+			o.SrvTr = func(t *quic.Transport) { t.ConnectionIDGenerator = echo }
+			restoreLen := quic.VerifSetInitialDCIDLen(8)
+			defer restoreLen()
+		}
 		cache := tls.NewLRUClientSessionCache(4)
 		if c.Mode != "" {
 			o.ClientTLS = func(t *tls.Config) { t.ClientSessionCache = cache }
@@ -359,7 +403,7 @@ func runOneHS(c hsCase) (fails []monFail, info string) {
 			return
 		}
 		defer e.Close()
-		att = &hsAttacker{c: c, cliAddr: &net.UDPAddr{IP: net.ParseIP("1.0.0.1"), Port: 9001}, srvAddr: e.SrvAddr, attSCID: []byte{0xa7, 0x7a, 0xc4, 0xe1, 0x5c, 0x1d, 0x00, 0x01}, dcidsPerAttempt: map[string]map[string]bool{}, seenAttempt: map[string]bool{}, srvSCIDs: map[string]bool{}}
+		att = &hsAttacker{echo: echo, c: c, cliAddr: &net.UDPAddr{IP: net.ParseIP("1.0.0.1"), Port: 9001}, srvAddr: e.SrvAddr, attSCID: []byte{0xa7, 0x7a, 0xc4, 0xe1, 0x5c, 0x1d, 0x00, 0x01}, dcidsPerAttempt: map[string]map[string]bool{}, seenAttempt: map[string]bool{}, srvSCIDs: map[string]bool{}}
 		att.armed = c.Mode == ""
 		e.Router.onPacket = att.observe
 		e.Router.inject = func(dir, idx int, p simnet.Packet) []simnet.Packet {
@@ -724,6 +768,12 @@ func runOneHS(c hsCase) (fails []monFail, info string) {
 			fail("simhandshake/one-retry", fmt.Sprintf("client connection %s used %d different DCIDs in its Initials before any genuine server packet: more than one Retry accepted", sc, n))
 		}
 	}
+	if c.EchoDCID && ok && len(res.conns) > 0 {
+		last := res.conns[len(res.conns)-1]
+		if !bytes.Equal(last.HsDCID, last.OrigDCID) {
+			fail("simhandshake/echo-setup", fmt.Sprintf("scenario wants server SCID = original DCID, got %s", caStateStr(last)))
+		}
+	}
 	// the client's connection-ID state against the wire
 	if ok && len(res.conns) > 0 {
 		last := res.conns[len(res.conns)-1]
@@ -772,6 +822,11 @@ func hsScenarios() []hsCase {
 			}
 		}
 	}
+	for _, cl := range []string{"plain", "unil", "Chrome_115_IPv4"} {
+		for _, long := range []bool{false, true} {
+			out = append(out, hsCase{Client: cl, LongChain: long, EchoDCID: true})
+		}
+	}
 	for _, cl := range []string{"plain", "unil"} {
 		for _, retry := range []bool{false, true} {
 			out = append(out, hsCase{Client: cl, Retry: retry, Mode: "0rtt"})
@@ -796,13 +851,85 @@ func hsFault(dir, idx, kind int, r *u.Rng) fault {
 
 const hsPositions = 12
 
+// runSimHandshake: the cases run in a child process. A panic inside a goroutine of the implementation
+// (it cannot be recovered from outside) kills only the child; the parent reports it as a monitor failure
+// with the case that was running and starts the next child behind it.
 func runSimHandshake(w *bufio.Writer, seed uint64, n int, args []string) {
+	for _, a := range args {
+		if a == "child" {
+			runSimHandshakeCases(w, seed, n, args)
+			return
+		}
+	}
+	exe, err := os.Executable()
+	if err != nil {
+		runSimHandshakeCases(w, seed, n, args)
+		return
+	}
+	from, crashes := 0, 0
+	for {
+		cargs := append([]string{"simhandshake", fmt.Sprint(seed), fmt.Sprint(n), "child", fmt.Sprintf("from=%d", from)}, args...)
+		cmd := exec.Command(exe, cargs...)
+		var stderr bytes.Buffer
+		cmd.Stderr = &stderr
+		out, err := cmd.StdoutPipe()
+		if err != nil || cmd.Start() != nil {
+			runSimHandshakeCases(w, seed, n, args)
+			return
+		}
+		sc := bufio.NewScanner(out)
+		sc.Buffer(make([]byte, 1<<20), 1<<26)
+		cur, curCase, finished := -1, "", false
+		for sc.Scan() {
+			ln := sc.Text()
+			switch {
+			case strings.HasPrefix(ln, "BEGIN\t"):
+				p := strings.SplitN(ln, "\t", 3)
+				fmt.Sscanf(p[1], "%d", &cur)
+				curCase = p[2]
+			case ln == "END":
+				finished = true
+			default:
+				fmt.Fprintln(w, ln)
+			}
+		}
+		werr := cmd.Wait()
+		if finished && werr == nil {
+			return
+		}
+		crashes++
+		msg := stderr.String()
+		first := strings.SplitN(strings.TrimSpace(msg), "\n", 2)[0]
+		where := ""
+		for _, l := range strings.Split(msg, "\n") {
+			if strings.Contains(l, "uquic") && strings.Contains(l, "(") && !strings.Contains(l, "verifdrv") {
+				where = strings.TrimSpace(l)
+				break
+			}
+		}
+		fmt.Fprintf(w, "CASE 1 %s\n", curCase)
+		fmt.Fprintf(w, "MONFAIL\tsimhandshake/crash\tthe process died while this handshake was running: %s in %s\t%s\n", first, where, curCase)
+		if cur < 0 || crashes > 50 {
+			fmt.Fprintf(w, "MONFAIL\tsimhandshake/crash-loop\tgiving up after %d crashed child processes\t%s\n", crashes, first)
+			return
+		}
+		from = cur + 1
+	}
+}
+
+func runSimHandshakeCases(w *bufio.Writer, seed uint64, n int, args []string) {
 	r := u.NewRng(seed)
 	scen := hsScenarios()
-	only := -1
+	only, from, child := -1, 0, false
 	for _, a := range args {
 		if strings.HasPrefix(a, "only=") {
 			fmt.Sscanf(a, "only=%d", &only)
+		}
+		if strings.HasPrefix(a, "from=") {
+			fmt.Sscanf(a, "from=%d", &from)
+		}
+		if a == "child" {
+			child = true
 		}
 	}
 	var cases []hsCase
@@ -814,6 +941,11 @@ func runSimHandshake(w *bufio.Writer, seed uint64, n int, args []string) {
 	// version racing the server's first flight); the outcome depends on a select between two ready channels
 	for i := 0; i < 6; i++ {
 		cases = append(cases, hsCase{Client: []string{"plain", "Chrome_115_IPv4", "unil"}[i%3], Inj: &hsInj{1, 0, injVNOther}})
+	}
+	// forged valid-tag Retry right after the genuine first flight of a server that echoes the original DCID
+	for i := 0; i < 6; i++ {
+		cases = append(cases, hsCase{Client: []string{"plain", "Chrome_115_IPv4", "unil"}[i%3], EchoDCID: true, LongChain: i >= 3,
+			Inj: &hsInj{1, 1 + i%2, []int{injRetryGood, injRetryGoodCur}[i%2]}})
 	}
 	thorough := os.Getenv("VERIF_TIER") == "thorough"
 	if thorough {
@@ -868,8 +1000,12 @@ func runSimHandshake(w *bufio.Writer, seed uint64, n int, args []string) {
 	dist := map[string]int{}
 	for i, c := range cases {
 		c.Seed = seed*1000003 + uint64(i)
-		if only >= 0 && i != only {
+		if (only >= 0 && i != only) || i < from {
 			continue
+		}
+		if child {
+			fmt.Fprintf(w, "BEGIN\t%d\t%s\n", i, c.String())
+			w.Flush()
 		}
 		fails, info := runOneHS(c)
 		nt := 0
@@ -910,6 +1046,9 @@ func runSimHandshake(w *bufio.Writer, seed uint64, n int, args []string) {
 	}
 	for k, v := range dist {
 		fmt.Fprintf(w, "DIST\t%s\t%d\n", k, v)
+	}
+	if child {
+		fmt.Fprintln(w, "END")
 	}
 }
 
